@@ -159,6 +159,7 @@ def gen_case(rng, tier):
     jitter = rng.choice([False, False, 0.1, -0.1, 0.5, -0.5, 1.0, -1.0, True, 0.999, -0.25])
     api = rng.choice(['backoff', 'backoff_iter'])
     case = {'start': start, 'stop': stop, 'factor': factor, 'count': count, 'jitter': jitter, 'prior_count': prior_count, 'num_type': num_type,
+            'by_hand': rng.choice([0, 0, 0, 0, 1, 2, 3]),
             'api': api, 'script': _gen_script(rng), 'k_hint': k, 'mutate': rng.choice(['clear', 'append'])}
     if rng.random() < 0.06:
         if rng.random() < 0.5:
@@ -404,6 +405,15 @@ def run_case(case):
         # it must is reported, not materialised
         g = it.backoff_iter(S, T, **kw)
         lim = (need if endless else (need + 50 if need is not None else 50))
+        # a retry loop may take its first delays by hand and hand the same object on to a for loop (or list()):
+        # that continues the schedule, it does not start it again
+        for _k in range(case.get('by_hand', 0)):
+            try:
+                vals.append(next(g))
+            except StopIteration:
+                break
+        if case.get('by_hand'):
+            out.probe('first_values_taken_with_next')
         for v in g:
             vals.append(v)
             if len(vals) >= lim and endless:
